@@ -523,4 +523,7 @@ Proof.
   - intros m2 x2' Hx2'. destruct (rl_origins m2 x2' Hx2') as (x2 & Hx2 & Ho). rewrite Ho. apply (IT m2 x2 Hx2).
 Qed.
 
+Theorem reloc_j5 : TreeFacts w1 /\ Inv04 w1 /\ Inv05 T w1.
+Proof. exact (conj reloc_treefacts (conj reloc_inv04 reloc_inv05)). Qed.
+
 End Reloc.
